@@ -228,7 +228,7 @@ var pureExternalPkgs = map[string]bool{
 	"crypto/rc4": true, "os/user": true, "net": true, "hash": true, "sort": true,
 	"golang.org/x/crypto/pbkdf2": true, "github.com/jcmturner/gofork/x/crypto/pbkdf2": true,
 	"github.com/jcmturner/dnsutils/v2": true, "net/http/cookiejar": true, "github.com/hashicorp/go-uuid": true,
-	"github.com/jcmturner/goidentity/v6": true,
+	"github.com/jcmturner/goidentity/v6": true, "github.com/jcmturner/rpc/v2/mstypes": true,
 }
 
 // mutatingExternals: externals (by short name prefix) that write through specific arguments: index list of args
